@@ -126,8 +126,8 @@ func GenXML(t *simkit.Tape, cfg XMLGenConfig) *Node {
 	root := &Node{Kind: KRoot}
 	if cfg.Pad > 0 {
 		fill := "p"
-		if cfg.NonASCII && cfg.Encoding == "" {
-			fill = "é" // multi-byte filler: the boundary may fall inside a character
+		if cfg.NonASCII && cfg.Encoding != "US-ASCII" {
+			fill = "é" // one byte in the 8-bit charsets, two in UTF-8: buffer boundaries fall inside decoded characters
 		}
 		root.Children = append(root.Children, &Node{Kind: KComment, Value: strings.Repeat(fill, cfg.Pad/len(fill))})
 	}
@@ -197,7 +197,12 @@ func (g *xmlGen) element(depth int, parentScope map[string]string) *Node {
 	if g.cfg.Namespaces {
 		nd := g.t.Pick(5, 3, 1)
 		for i := 0; i < nd; i++ {
-			switch g.t.Pick(3, 3, 1) {
+			switch g.t.Pick(6, 6, 2, 1) {
+			case 3: // the legal explicit declaration of the xml prefix
+				if hasDecl(e.Decls, "xml") {
+					continue
+				}
+				e.Decls = append(e.Decls, Decl{"xml", XMLNS})
 			case 0: // prefixed declaration (possibly re-binding)
 				p := prefixPool[g.t.Draw(len(prefixPool))]
 				u := uriPool[g.t.Draw(len(uriPool))]
